@@ -7,7 +7,9 @@ use crate::vnet::{Pick, Policy, RecvPoint};
 use std::net::SocketAddr;
 
 pub const SUBST: [u8; 9] = [0x00, 0x01, 0x02, 0x0A, 0x5C, 0x7F, 0x80, 0xFE, 0xFF];
-pub const TAIL_ALPHABET: [u8; 7] = [0x00, 0x01, 0x0A, 0x5C, 0x80, 0xFE, 0xFF];
+pub const TAIL_ALPHABET: [u8; 8] = [0x00, 0x01, 0x0A, 0x5C, 0x80, 0xC3, 0xFE, 0xFF];
+/// a valid two-byte UTF-8 character, written over two bytes at every offset (byte-indexed string slicing)
+pub const UTF8_PAIR: [u8; 2] = [0xC3, 0xA9];
 pub const TEXT_NUMBERS: [&str; 7] = ["", "-1", "256", "65536", "4294967296", "99999999999999999999", "x"];
 pub const MAX_DATAGRAM: usize = 65_507;
 
@@ -47,16 +49,16 @@ pub struct Hostile {
 }
 
 /// Number of tails of length 1..=n over the 7-symbol alphabet.
-fn n_tails(n: usize) -> usize { (1 ..= n).map(|k| 7usize.pow(k as u32)).sum() }
+fn n_tails(n: usize) -> usize { (1 ..= n).map(|k| 8usize.pow(k as u32)).sum() }
 
 fn tail(mut idx: usize, max_len: usize) -> Vec<u8> {
     for len in 1 ..= max_len {
-        let count = 7usize.pow(len as u32);
+        let count = 8usize.pow(len as u32);
         if idx < count {
             let mut v = Vec::with_capacity(len);
             for _ in 0 .. len {
-                v.push(TAIL_ALPHABET[idx % 7]);
-                idx /= 7;
+                v.push(TAIL_ALPHABET[idx % 8]);
+                idx /= 8;
             }
             return v;
         }
@@ -237,6 +239,9 @@ pub fn extremes_uncached(f: Family, d: &[u8]) -> Vec<Vec<u8>> {
                 "\\queryid\\-1.-1\\final\\",
                 "\\a",
                 "a",
+                "\u{e9}\\hostname\\x\\final\\",
+                "\u{e9}",
+                "\u{6771}\u{4eac}",
                 "\\hostname\\h\\mapname\\m\\gametype\\g\\gamever\\v\\password\\0\\maxplayers\\4294967295\\final\\\\queryid\\1.1",
                 "\\hostname\\h\\mapname\\m\\gametype\\g\\gamever\\v\\password\\0\\maxplayers\\1\\player_4294967295\\x\\final\\\\queryid\\1.1",
                 "\\hostname\\h\\mapname\\m\\gametype\\g\\gamever\\v\\password\\0\\maxplayers\\1\\player_18446744073709551615\\x\\final\\\\queryid\\1.1",
@@ -506,6 +511,7 @@ struct Menu<'a> {
 struct Layout {
     trunc: usize,
     subst: usize,
+    utf8: usize,
     wide: usize,
     textnum: usize,
     tails: usize,
@@ -515,7 +521,7 @@ struct Layout {
 }
 
 impl Layout {
-    fn total(&self) -> usize { 1 + self.trunc + self.subst + self.wide + self.textnum + self.tails + self.extremes + self.oversize + self.timeout }
+    fn total(&self) -> usize { 1 + self.trunc + self.subst + self.utf8 + self.wide + self.textnum + self.tails + self.extremes + self.oversize + self.timeout }
 }
 
 /// Boundary subset of offsets used for the second deviation.
@@ -538,6 +544,7 @@ impl<'a> Menu<'a> {
             return Layout {
                 trunc: 0,
                 subst: 0,
+                utf8: 0,
                 wide: 0,
                 textnum: 0,
                 tails: 0,
@@ -551,6 +558,7 @@ impl<'a> Menu<'a> {
                 Layout {
                     trunc: len,
                     subst: len * SUBST.len(),
+                    utf8: len.saturating_sub(1),
                     wide: if self.wide { len * WIDE.len() } else { 0 },
                     textnum: if has && is_text_family(self.f) { digit_runs(self.d.unwrap()).len() * TEXT_NUMBERS.len() } else { 0 },
                     tails: if has { tail_prefixes(self.f, self.d.unwrap()).len() * n_tails(self.tail_len) } else { n_tails(self.tail_len.min(2)) },
@@ -563,6 +571,7 @@ impl<'a> Menu<'a> {
                 Layout {
                     trunc: len,
                     subst: 0,
+                    utf8: 0,
                     wide: 0,
                     textnum: 0,
                     tails: 0,
@@ -576,6 +585,7 @@ impl<'a> Menu<'a> {
                 Layout {
                     trunc: so,
                     subst: so * 3,
+                    utf8: 0,
                     wide: if self.wide { so * WIDE.len() } else { 0 },
                     textnum: 0,
                     tails: 0,
@@ -614,6 +624,13 @@ impl<'a> Menu<'a> {
             return custom(x);
         }
         i -= l.subst;
+        if i < l.utf8 {
+            let mut x = d.to_vec();
+            x[i] = UTF8_PAIR[0];
+            x[i + 1] = UTF8_PAIR[1];
+            return custom(x);
+        }
+        i -= l.utf8;
         if i < l.wide {
             let off = match self.kind {
                 MenuKind::Second => subset_offsets(d.len())[i / WIDE.len()],
